@@ -2,7 +2,7 @@
    generates (leg V of DESIGN.md §1). Their meaning (the Prop each one
    reflects) is proved in Proofs/*.v; the property theorems are stated for every
    table that passes them. *)
-From RV Require Export Model.Table.
+From RV Require Export Model.Table Model.First.
 
 Definition is_start_state (T : table) (s : nat) : bool :=
   (s =? 0) || (match t_layout T with Some l => s =? l | None => false end).
@@ -87,3 +87,79 @@ Definition sound_state_b (g : grammar) (T : table) (s : nat) (st : state) : bool
 Definition sound_b (g : grammar) (T : table) : bool :=
   shape_b g T &&
   forallb (fun '(s, st) => sound_state_b g T s st) (indexed (t_states T)).
+
+(* ---- completeness conditions (items with lookaheads vs. cells) ------------- *)
+Definition actions_eqb (l1 l2 : list action) : bool :=
+  (length l1 =? length l2) && forallb (fun '(a, b) => action_eqb a b) (combine l1 l2).
+
+Definition target_of (g : grammar) (st : state) (X : nat) : option nat :=
+  if X <? g_nterm g then
+    match nth X (s_actions st) [] with
+    | [Shift s'] => Some s'
+    | _ => None
+    end
+  else
+    match nth_error (s_gotos st) (X - g_nterm g) with
+    | Some (Some s') => Some s'
+    | _ => None
+    end.
+
+Definition closure_ok_b (g : grammar) (T : table) (st : state) (X : nat) (beta L : list nat) : bool :=
+  let e := g_empty g in
+  let fb := firsts e (t_first T) beta in
+  forallb (fun '(q, pr) =>
+             if p_lhs pr =? X then
+               match find_item st q 0 with
+               | Some it' =>
+                   subsetb (filter (fun a => negb (a =? e)) fb) (i_follow it') &&
+                   (if memb e fb then subsetb L (i_follow it') else true)
+               | None => false
+               end
+             else true) (indexed (g_prods g)).
+
+Definition is_aug_prod (g : grammar) (p : nat) : bool :=
+  (p =? 0) || (match g_layout g with Some _ => p =? 1 | None => false end).
+
+Definition complete_item_b (g : grammar) (T : table) (st : state) (it : item) : bool :=
+  let p := i_prod it in
+  let i := i_pos it in
+  let L := i_follow it in
+  match nth_error (rhs g p) i with
+  | Some X =>
+      (match target_of g st X with
+       | None => false
+       | Some s' =>
+           match get_state T s' with
+           | None => false
+           | Some st' =>
+               match find_item st' p (S i) with
+               | Some it' => subsetb L (i_follow it')
+               | None => false
+               end
+           end
+       end) &&
+      (if X <? g_nterm g then true
+       else closure_ok_b g T st X (skipn (S i) (rhs g p)) L)
+  | None =>
+      if is_aug_prod g p then actions_eqb (nth 0 (s_actions st) []) [Accept]
+      else forallb (fun a => actions_eqb (nth a (s_actions st) []) [Reduce p i]) L
+  end.
+
+Definition first_closed_b (g : grammar) (T : table) : bool :=
+  let e := g_empty g in
+  let F := t_first T in
+  forallb (fun a => memb a (first_of F a)) (seq 0 (g_nterm g)) &&
+  forallb (fun pr => subsetb (firsts e F (p_rhs pr)) (first_of F (p_lhs pr))) (g_prods g).
+
+Definition start_item_b (T : table) : bool :=
+  match get_state T 0 with
+  | Some st0 => match find_item st0 0 0 with
+                | Some it => memb STOP (i_follow it)
+                | None => false
+                end
+  | None => false
+  end.
+
+Definition complete_b (g : grammar) (T : table) : bool :=
+  shape_b g T && first_closed_b g T && start_item_b T &&
+  forallb (fun st => forallb (complete_item_b g T st) (s_items st)) (t_states T).
